@@ -149,15 +149,20 @@ MUTS = {
         value = value.clone()
 
     if isinstance(value, TopologyAware):"""),
+ 'M27-functor-delattr-through-rebind (seeded C08-14)': ('PATCH', 'seeded/C08-14/patch.diff', ''),
+ 'M28-use-value-spec-applies-inside-unsealing-scopes (seeded C08-15)': ('PATCH', 'seeded/C08-15/patch.diff', ''),
 }
 only = sys.argv[1:]
 for name, (path, old, new) in MUTS.items():
   if only and name.split('-')[0] not in only: continue
   subprocess.run(['git','-C','/repo','worktree','remove','--force',M],capture_output=True)
   subprocess.run(['git','-C','/repo','worktree','add',M,'HEAD'],capture_output=True,check=True)
-  fp=os.path.join(M,path); s=open(fp).read()
-  assert old in s, name
-  open(fp,'w').write(s.replace(old,new,1))
+  if path == 'PATCH':
+    subprocess.run(['git','-C',M,'apply',os.path.join(VERIF, old)],check=True)
+  else:
+    fp=os.path.join(M,path); s=open(fp).read()
+    assert old in s, name
+    open(fp,'w').write(s.replace(old,new,1))
   if name.startswith(('M21-', 'M22-')):
     p2, o2, n2 = MUTS2[name[:3] + 'b']
     s2 = open(os.path.join(M, p2)).read(); assert o2 in s2
